@@ -2767,8 +2767,13 @@ class HasTraits(CHasTraits, metaclass=MetaHasTraits):
         del locked[name]
 
     def _sync_trait_items_modified(self, object, name, old, event):
-        n0 = event.index
-        n1 = n0 + len(event.removed)
+        index = event.index
+        if not isinstance(index, slice):
+            index = slice(index, index + len(event.removed))
+        # Otherwise the index is an extended slice (step > 1): the same
+        # positions are replaced - or deleted, if nothing was added - in the
+        # synchronized lists.
+        delete = (index.step is not None) and (len(event.added) == 0)
         name = name[:-6]
         info = self.__sync_trait__
         if name not in info:
@@ -2779,7 +2784,10 @@ class HasTraits(CHasTraits, metaclass=MetaHasTraits):
             object = object()
             if object_name not in object._get_sync_trait_info()[""]:
                 try:
-                    getattr(object, object_name)[n0:n1] = event.added
+                    if delete:
+                        del getattr(object, object_name)[index]
+                    else:
+                        getattr(object, object_name)[index] = event.added
                 except:
                     pass
 
